@@ -1,10 +1,23 @@
 import GeomV.C10.GenWrites
+import GeomV.C10.GenBodies
 import GeomV.C10.Ctors
 /-! Regenerated tie for the constructor `EqdC` (/repo/proj): the fields it assigns in the Go source (go/ast
 extraction, `GenWrites.lean`, rewritten on every run) are exactly the model's write set; its closures
 assign nothing; no compound assignment; the SR is passed on only to the modelled callees; no field
 address is taken. -/
+set_option linter.unusedSimpArgs false
 namespace GeomV.C10
 theorem tie_EqdC :
     Gen.ctorWrites.lookup "EqdC" = some (writeSet .eqdc, [], [], calleesOf .eqdc, []) := by decide
+
+/-- Regenerated tie for the VALUES and CONDITIONS: the slice of `EqdC`'s body that decides its writes and
+its error (extracted by go/ast into `GenBodies.lean` on every run), interpreted by `IR.run`, equals the
+model `initP .eqdc` for every SR and every float semantics. -/
+theorem tie_body_EqdC : BodyTie Gen.ctorBodies .eqdc := by
+  open IR POps in
+  intro F R _ p
+  simp only [run, Gen.ctorBodies, goFunc, List.lookup]
+  cases h1 : isNaN p.lat2 <;>
+    cases h5 : lt (abs (add p.lat1 p.lat2)) epsln <;> cases h6 : lt (abs (add p.lat1 p.lat1)) epsln <;>
+    simp [exec, eval, getF, setFld, cstV, call1F, binF, initP, initEqdC, parallelsBad, nanDefault, h1, h5, h6, List.lookup]
 end GeomV.C10
